@@ -290,9 +290,10 @@ def verOps : VOps Raw := Py.attrsOps valOps
 
 def hashable : Bool := true
 
-/-- `hash((self._base_semver.to_tuple(), self._revision))`: the tuple includes `build` -/
-def hashKey : Raw → Option (Nat × Nat × Nat × Option (List Char) × Option (List Char) × Nat)
+/-- `hash((self._base_semver.to_tuple()[:4], self._revision))`: major, minor, patch, prerelease and
+the revision; the build metadata takes no part -/
+def hashKey : Raw → Option (Nat × Nat × Nat × Option (List Char) × Nat)
   | none => none
-  | some v => some (v.major, v.minor, v.patch, v.pre, v.build, v.revision)
+  | some v => some (v.major, v.minor, v.patch, v.pre, v.revision)
 
 end Univers.Nuget
